@@ -1451,6 +1451,6 @@ func verifLemmaProgress(g *Graph, t *Task) {}
 //@   invariant [alloc] forall k int :: 0 <= k && k < len(events) ==> allocated(events[k].Data)
 //@ loop 3 range toIDs
 //@   invariant [fresh] events == nil || fresh(events)
-//@   step [link:alloc] len(events) == old(len(events)) + 1 && planLinkEvent(events[old(len(events))], from, toIDs[index-1]) &&
+//@   step [link:alloc] len(events) == old(len(events)) + 1 && planLinkEvent(events[old(len(events))], from, elem) &&
 //@        (forall k int :: 0 <= k && k < old(len(events)) ==> events[k] == old(events[k]) && content(events[k].Data) == old(content(events[k].Data)))
 //@   invariant [alloc] forall k int :: 0 <= k && k < len(events) ==> allocated(events[k].Data)
